@@ -32,6 +32,10 @@ structure Op where
   hdr : Nat := 0
   first : Nat := 0
   kind : String := "sp"
+  csw : Nat := 0
+  fpos : List Nat := []
+  frev : List Nat := []
+  fsigs : List (Nat × Nat × Nat) := []   -- (position, L, key id) of the attacker's occupied slots
 
 def listNat (s : String) : List Nat :=
   if s = "-" || s = "" then [] else (s.splitOn ",").map nat!
@@ -41,10 +45,15 @@ def parsePart (s : String) : Nat × Nat :=
   | [w, k] => (nat! w, nat! k)
   | _ => (0, 0)
 
+def parseTriple (s : String) : Nat × Nat × Nat :=
+  match s.splitOn ":" with
+  | [a, b, c] => (nat! a, nat! b, nat! c)
+  | _ => (0, 0, 0)
+
 def parse (line : String) : Option Op :=
   match fields line with
   | knd :: kvs =>
-    if knd != "sp" && knd != "vsp" && knd != "accw" then none else
+    if knd != "sp" && knd != "vsp" && knd != "accw" && knd != "fg" then none else
     some <| kvs.foldl (fun o kv =>
       match kv.splitOn "=" with
       | [k, v] =>
@@ -68,6 +77,10 @@ def parse (line : String) : Option Op :=
         else if k = "vlnpw" then { o with vlnpw := nat! v }
         else if k = "hdr" then { o with hdr := nat! v }
         else if k = "first" then { o with first := nat! v }
+        else if k = "sw" then { o with csw := nat! v }
+        else if k = "pos" then { o with fpos := listNat v }
+        else if k = "rev" then { o with frev := listNat v }
+        else if k = "sigs" then { o with fsigs := if v = "-" then [] else (v.splitOn ",").map parseTriple }
         else o
       | _ => o) { kind := knd }
   | _ => none
@@ -218,10 +231,33 @@ def showLErr : Except LErr Unit → String
   | .error .lnZero => "err:lnzero"
   | .error (.crypto _) => "err:crypto"
 
+/-- a proof forged from scratch: the attacker's signature array (free `L`s), its honest commitment and openings,
+the claimed signed weight, the attacker's positions list and reveals; `H` = the coins of the real generator -/
+def handleForge (o : Op) : String :=
+  let parts := participants o
+  let slots : List (SigSlot SymSig) := (List.range parts.length).map fun i =>
+    match o.fsigs.find? (fun t => t.1 == i) with
+    | some t => ⟨(parts.getD i ⟨0, 0, 0⟩).weight, ⟨some (symSig t.2.2 o.life o.rnd o.msg), t.2.1⟩⟩
+    | none => ⟨0, ⟨none, 0⟩⟩
+  let E : IEnv := idealEnv fun _ => o.coins
+  match slotLeaves idealSS slots with
+  | none => "bad-forge"
+  | some leaves =>
+    match E.vcS.prove leaves o.frev, E.vcP.prove parts o.frev with
+    | some ps, some pp =>
+      let reveals : List (Nat × Reveal SymSig) := o.frev.filterMap fun p =>
+        match slots[p]?, parts[p]? with
+        | some sl, some pt => some (p, ⟨sl.commit, pt⟩)
+        | _, _ => none
+      let sp : IProof := ⟨E.vcS.commit leaves, o.csw, ps, pp, SchemeSaltVersion, reveals, o.fpos⟩
+      s!"coins=ok verify={showVerdict (verify E ⟨o.st, o.lnpw, E.vcP.commit parts⟩ o.rnd o.msg sp)}"
+    | _, _ => "bad-forge"
+
 def handle (line : String) : String :=
   match parse line with
   | none => "bad-op"
   | some o =>
+    if o.kind = "fg" then handleForge o else
     if o.kind = "accw" then toString (acceptableWeight o.total o.ivl o.thr (o.hdr + o.ivl) o.first) else
     match buildProver o with
     | .error e => s!"create={e}"
